@@ -81,4 +81,24 @@ Section C02.
     cbn [fst] in *. intros [H|H]; [|exact (IH H)].
     unfold frame_event in H. destruct (dec _); discriminate.
   Qed.
+
+  (* a frame u (of any size) followed by its terminator and then a safe stream: whatever the chunking, the copying
+     consumer emits some junk events for u and then exactly the events of [rest] *)
+  Lemma resync_copying_l limit (u rest : bytes) (chunks : list bytes) fuel :
+    find0 sep (u ++ sep) = Some (length u) -> safe sep limit rest ->
+    Forall (fun ch => ch <> []) chunks -> concat chunks = u ++ sep ++ rest -> length (concat chunks) < fuel ->
+    exists c' junk,
+      cdeliver (ru_framer sep limit keep_end dec) fuel (cinit _) chunks = (c', junk ++ fst (spec_events sep keep_end dec rest)) /\
+      cbuf c' = [] /\ junk <> [] /\ (limit < length u -> In (RErr ELimit) junk).
+  Proof.
+    intros Hu Hs Hne Hc Hf.
+    assert (HJ : resync_at sep ([] ++ concat chunks) rest (length u)).
+    { cbn [app]. rewrite Hc. split.
+      - rewrite app_assoc. apply find0_app_l. exact Hu.
+      - rewrite app_assoc. rewrite skipn_app_le by (rewrite app_length; lia).
+        rewrite <- app_length. rewrite skipn_all. reflexivity. }
+    destruct (resync_spec sep limit keep_end dec sep_ne chunks (cinit _) [] fuel rest (length u)
+                (crep_idle _ _ _ _) Hne HJ Hs Hf) as (c' & junk & Hd & Hc' & Hj1 & Hj2).
+    exists c', junk. split; [exact Hd|]. split; [inversion Hc'; reflexivity|]. split; assumption.
+  Qed.
 End C02.
